@@ -150,10 +150,10 @@ contract("esutil.recfile.Util.Recfile.__init__#opened", runtime_name="esutil.rec
 _SF0 = "obj:SFile{_robj:none,_hdr:none,_size:int}"
 contract("esutil.sfile.SFile.open#append-to-a-missing-file", runtime_name="esutil.sfile.SFile.open",
          params=dict(self=_SF0, filename="str", mode="const:'r+'", delim="opt[str]", padnull="bool", ignorenull="bool"),
-         requires={"the-file-does-not-exist-yet": "not path_exists(filename)"},
+         requires={"the-file-the-name-stands-for (with ~ and $VAR expanded) does-not-exist-yet": "not path_exists(path_expanded(filename))"},
          ensures={"an-append-to-a-missing-file-creates-it: the handle is in write mode, no header is read, the record file is opened with 'w'":
                   "self._mode == 'w' and self._hdr is None and self._dtype is None and self._size == 0"
-                  " and self._robj.mode == 'w' and self._robj.filename == filename and self._delim == delim"},
+                  " and self._robj.mode == 'w' and self._robj.filename == path_expanded(filename) and self._delim == delim"},
          modifies=["self"],
          callee_contracts={"Recfile.__init__": "esutil.recfile.Util.Recfile.__init__#opened", "SFile.read_header": "esutil.sfile.SFile.read_header"},
          inline_calls=["esutil.sfile.SFile.close"],
@@ -163,7 +163,7 @@ contract("esutil.sfile.SFile.open#overwrite", runtime_name="esutil.sfile.SFile.o
          params=dict(self=_SF0, filename="str", mode="const:'w'", delim="opt[str]", padnull="bool", ignorenull="bool"),
          ensures={"a-non-append-write-starts-from-scratch: no header is read whether or not the file exists, the record file is opened with 'w'":
                   "self._mode == 'w' and self._hdr is None and self._dtype is None and self._size == 0"
-                  " and self._robj.mode == 'w' and self._robj.filename == filename and self._delim == delim"},
+                  " and self._robj.mode == 'w' and self._robj.filename == path_expanded(filename) and self._delim == delim"},
          modifies=["self"],
          callee_contracts={"Recfile.__init__": "esutil.recfile.Util.Recfile.__init__#opened", "SFile.read_header": "esutil.sfile.SFile.read_header"},
          inline_calls=["esutil.sfile.SFile.close"],
